@@ -163,6 +163,7 @@ Inductive call :=
 (* pub/sub *)
 | CSub (m : modid) (topic : N) (p : nat) (oneshot : bool) (up : N)   (* p: 0 none 1 low 2 norm 3 high 4 invalid (two bits) *)
 | CUnsub (m : modid) (topic : N)
+| CTellMany (m r : modid) (data : N) (n : nat)     (* n direct tells of the same payload in a row: bursts beyond the pipe capacity *)
 | CTell (m r : modid) (data : N) (af : bool) | CPublish (m : modid) (topic : N) (data : N) (af : bool)
 | CBroadcast (m : modid) (data : N) (af : bool) | CPill (m r : modid)
 (* sources *)
@@ -188,5 +189,6 @@ Record script := mkScript {
   sc_procs : list (list call);
   sc_cbs : list (modid * cbkind * nat * list cbspec);   (* (module, kind, handler id) -> per-invocation behaviour *)
   sc_tslot : list (N * nat);                            (* topic -> slot in a subscriptions map *)
-  sc_rematch : list (N * N * bool)                      (* (pattern, topic) -> regexec matches *)
+  sc_rematch : list (N * N * bool);                     (* (pattern, topic) -> regexec matches *)
+  sc_pipecap : nat                                      (* messages a module pipe holds; 0 = the system default (cPIPE_CAP_MSGS) *)
 }.
